@@ -11,7 +11,7 @@ use crate::{
     framework::{Check, Tier, run_seed},
     hooks::HUB,
     prng::{Fnv, Rng, mix},
-    vut::{Expect, FORMATS, Maker, Vut, make_all, make_nopco, make_nozc},
+    vut::{Expect, FORMATS, Maker, Vut, make_all, make_bytes_lz4_zstd, make_nopco, make_nozc},
 };
 
 #[derive(Clone, Debug, PartialEq)]
@@ -156,7 +156,7 @@ impl Cfg {
     }
 }
 
-pub const ELEMS: &[&str] = &["u64", "u32", "u16", "u8", "i64", "f64", "f32", "u128", "wrapped-u32"];
+pub const ELEMS: &[&str] = &["u64", "u32", "u16", "u8", "i64", "f64", "f32", "u128", "wrapped-u32", "b12"];
 
 pub fn elem_size(name: &str) -> usize {
     match name {
@@ -164,6 +164,7 @@ pub fn elem_size(name: &str) -> usize {
         "u16" => 2,
         "u32" | "f32" | "wrapped-u32" => 4,
         "u128" => 16,
+        "b12" => 12,
         _ => 8,
     }
 }
@@ -814,18 +815,22 @@ impl<'a, T: Elem> Run<'a, T> {
                     let mut g = HUB.lock();
                     g.access.enabled = true;
                     g.access.events.clear();
+                    g.access.event_paths.clear();
+                    g.access.path_names.clear();
+                    g.access.path_names.push("?".into());
+                    g.access.cur_path = 0;
                 }
                 let skip: Vec<&'static str> = self.cfg.skip.iter().map(|s| -> &'static str { Box::leak(s.clone().into_boxed_str()) }).collect();
                 let exp = Expect { model: &self.slots[k].m.vals, disk: self.slots[k].m.disk.as_deref(), skip: &skip };
                 let mut paths = 0u64;
                 let r = self.slots[k].v.battery(&exp, from, to, &mut rng, &mut paths);
                 self.stats.add("probe.read_paths_exercised", paths);
-                let events = if c20 {
+                let (events, event_paths, path_names) = if c20 {
                     let mut g = HUB.lock();
                     g.access.enabled = false;
-                    std::mem::take(&mut g.access.events)
+                    (std::mem::take(&mut g.access.events), std::mem::take(&mut g.access.event_paths), std::mem::take(&mut g.access.path_names))
                 } else {
-                    Vec::new()
+                    (Vec::new(), Vec::new(), Vec::new())
                 };
                 let fmt = self.slots[k].v.format();
                 if c20 {
@@ -840,14 +845,42 @@ impl<'a, T: Elem> Run<'a, T> {
                         }))
                         .collect();
                     self.stats.add("probe.access_events_checked", events.len() as u64);
-                    for (kind, off, len) in &events {
+                    let state = if self.slots[k].v.stored_len() > self.slots[k].v.real_stored_len() { "logical-length-exceeds-disk" } else { "ordinary" };
+                    let path_of = |i: usize| -> String {
+                        let full = event_paths.get(i).and_then(|p| path_names.get(*p as usize)).cloned().unwrap_or_else(|| "?".into());
+                        // drop the holder tag's format part ("rw.collect" stays, "<fmt>.rw.collect" -> "rw.collect")
+                        full.split('.').skip(1).collect::<Vec<_>>().join(".")
+                    };
+                    let mut first: Option<(usize, String)> = None;
+                    let mut offenders: std::collections::BTreeSet<String> = std::collections::BTreeSet::new();
+                    for (i, (_, off, len)) in events.iter().enumerate() {
                         let inside = bounds.iter().any(|(_, s, l)| *off >= *s && off + len <= s + l);
                         if !inside {
-                            let near = bounds.iter().find(|(_, s, _)| off >= s).map(|(n, s, l)| format!("nearest region '{n}' {s}..{}", s + l)).unwrap_or_default();
-                            let state = if self.slots[k].v.stored_len() > self.slots[k].v.real_stored_len() { "logical-length-exceeds-disk" } else { "ordinary" };
-                            return Err(viol(self.cfg, &format!("read-outside-valid-data/{state}"), fmt, op, self.step,
-                                format!("{kind:?} access of {len} bytes at file offset {off} is outside the vector's valid data ({near}); range {from}..{to}, len {l}, stored {sl}")));
+                            let p = path_of(i);
+                            // readers of the stored range (no overlay) are reported only when no
+                            // overlay-aware path offends: the latter is the more specific report
+                            let stored_only = matches!(p.as_str(), "VecReader" | "fold_stored_io" | "fold_stored_mmap" | "ro.reader");
+                            let replace = match &first {
+                                None => true,
+                                Some((_, fp)) => !stored_only && matches!(fp.as_str(), "VecReader" | "fold_stored_io" | "fold_stored_mmap" | "ro.reader"),
+                            };
+                            if replace {
+                                first = Some((i, p.clone()));
+                            }
+                            offenders.insert(p);
                         }
+                    }
+                    for p in &offenders {
+                        self.stats.bump(&format!("c20_outside.{state}.{p}"));
+                    }
+                    if let Some((i, p)) = first {
+                        let (kind, off, len) = &events[i];
+                        let near = bounds.iter().find(|(_, s, _)| off >= s).map(|(n, s, l)| format!("nearest region '{n}' {s}..{}", s + l)).unwrap_or_default();
+                        return Err(Fail::Violation(Violation::new(
+                            &self.cfg.property,
+                            format!("read-outside-valid-data/{state}/{fmt}/battery/{p}"),
+                            format!("step {} {} [{}]: {kind:?} access of {len} bytes at file offset {off} by read path {p} is outside the vector's valid data ({near}); range {from}..{to}, len {l}, stored {sl}; read paths with such accesses in this battery: {:?}", self.step, op.to_json(), self.cfg.elem, offenders),
+                        )));
                     }
                     // a panic / mismatch inside the battery is C08's business, not C20's
                     continue;
@@ -1009,6 +1042,7 @@ fn run_typed<T: Elem>(cfg: &Cfg, ops: &[Op], stats: &mut Stats, maker: Maker<T>)
     let scratch = Scratch::new("w3");
     HUB.reset();
     rawdb::verif::set_knob(rawdb::verif::KNOB_MMAP_CROSSOVER_BYTES, cfg.crossover);
+    stats.bump(&format!("probe.elem.{}", T::NAME));
     let mut run = Run::<T>::new(cfg, scratch.sub("db"), stats, maker)?;
     let mut result = Ok(());
     for op in ops {
@@ -1046,6 +1080,7 @@ pub fn run_history(cfg: &Cfg, ops: &[Op], stats: &mut Stats) -> RunResult<()> {
         "f32" => run_typed::<f32>(cfg, ops, stats, make_all::<f32>),
         "u128" => run_typed::<u128>(cfg, ops, stats, make_nopco::<u128>),
         "wrapped-u32" => run_typed::<crate::elem::Wrapped>(cfg, ops, stats, make_nozc::<crate::elem::Wrapped>),
+        "b12" => run_typed::<crate::elem::B12>(cfg, ops, stats, make_bytes_lz4_zstd::<crate::elem::B12>),
         other => harness(format!("unknown element type {other}")),
     }
 }
@@ -1127,6 +1162,7 @@ impl W3Check {
         let supports = |f: &str| match elem.as_str() {
             "u128" => !f.contains("pco"),
             "wrapped-u32" => f != "zerocopy",
+            "b12" => matches!(f, "bytes" | "lz4" | "zstd"),
             _ => true,
         };
         formats.retain(|f| supports(f));
